@@ -350,3 +350,35 @@ def guard_obligations(ck, known: Iterable[str] = ()):
     ck.ob = ob
     ck._g8_guarded = True
     return ck
+
+
+_PLAIN_CACHE: Dict[Tuple[str, str], ast.Module] = {}
+
+
+def plain_assignments(repo, relpaths: Iterable[str]):
+    """Repo in which, for the given modules, every annotated assignment with a value (``x: T = v``) is written as the
+    plain assignment ``x = v`` (locations kept).  Purely notational; lets rules treat both spellings alike."""
+    import copy
+
+    class T(ast.NodeTransformer):
+        def visit_AnnAssign(self, node):
+            self.generic_visit(node)
+            if node.value is not None and isinstance(node.target, (ast.Name, ast.Attribute, ast.Subscript)):
+                return ast.copy_location(ast.Assign(targets=[node.target], value=node.value), node)
+            return node
+
+    for rel in relpaths:
+        if not rel.startswith("tornado/"):
+            rel = "tornado/" + rel
+        m = repo.module(rel)
+        if not any(isinstance(n, ast.AnnAssign) and n.value is not None for n in ast.walk(m.tree)):
+            continue
+        key = (rel, m.digest)
+        if key not in _PLAIN_CACHE:
+            if len(_PLAIN_CACHE) > 16:
+                _PLAIN_CACHE.clear()
+            t = T().visit(copy.deepcopy(m.tree))
+            ast.fix_missing_locations(t)
+            _PLAIN_CACHE[key] = t
+        repo = repo.with_module(rel, tree=copy.deepcopy(_PLAIN_CACHE[key]))
+    return repo
